@@ -26,10 +26,13 @@ def ulp_diff(a, b):
     b = b[~inf_b]
     if a.numel() == 0:
         return 0.0
-    scale = torch.maximum(a.abs(), b.abs()).clamp(min=float(torch.finfo(a.dtype).tiny))
+    e, tiny = eps(a.dtype), float(torch.finfo(a.dtype).tiny)
+    a64, b64 = a.to(torch.float64), b.to(torch.float64)
+    scale = torch.maximum(a64.abs(), b64.abs()).clamp(min=tiny)
     # spacing of floats near |x| is between eps/2*|x| and eps*|x|
-    d = ((a - b).abs() / (scale * eps(a.dtype) / 2)).max().item()
-    return d
+    diff = (a64 - b64).abs()
+    d = torch.where(diff == 0, torch.zeros_like(diff), diff / (scale * (e / 2)).clamp(min=5e-324))
+    return d.max().item()
 
 
 def bit_equal(a, b):
